@@ -1,5 +1,5 @@
 (* Facts about the directory model and util.WriteFileAt (Model/FileWrite.v). *)
-From SV Require Import Model.Common Model.FileWrite Proofs.CommonFacts.
+From SV Require Import Model.Common Model.FileWrite Model.Buffer Spec.BufferSpec Proofs.CommonFacts.
 From Coq Require Import Lia ZifyBool ZifyN ZifyNat Sorting.Sorted.
 Ltac Zify.zify_post_hook ::= Z.div_mod_to_equations.
 
@@ -26,7 +26,6 @@ Qed.
 
 Definition name_eq_dec : forall a b : name, {a = b} + {a <> b} := list_eq_dec N.eq_dec.
 
-Definition name_lt (a b : name) : Prop := name_ltb a b = true.
 
 Lemma name_ltb_irrefl : forall a, name_ltb a a = false.
 Proof. induction a as [|x a IH]; cbn [name_ltb]; [reflexivity|]. rewrite N.ltb_irrefl. exact IH. Qed.
@@ -113,7 +112,6 @@ Proof.
 Qed.
 
 (* ---------- sortedness ---------- *)
-Definition dir_sorted (d : dirT) : Prop := StronglySorted name_lt (dir_names d).
 
 Lemma dir_sorted_nil : dir_sorted [].
 Proof. constructor. Qed.
